@@ -235,6 +235,18 @@ def slice(ctx: fw.Ctx) -> fw.Outcome:
                 tempo_.append((t_, rng.choice([120000, 60000, 90000, 150000, 200000])))
                 t_ += rng.randint(1, 9)
             src.tempo = tempo_
+        if rng.random() < 0.15 and src.tracks:
+            # a tempo so fast that neighbouring ticks share a microsecond: notes, phrases and events that coincide in time but not in tick
+            src.res, src.meta["resolution"] = 192, 192
+            src.tempo, src.anchors = [(0, rng.choice([960000000, 999999999, 500000000]))], []
+            src.tss = [(0, 4, None)]
+            for tr in src.tracks:
+                for k, g in enumerate(tr.groups):
+                    g.tick = k
+                    g.forced = False
+                tr.phrases = [(k, 1) for k in range(min(3, len(tr.groups)))]
+                tr.tevents = [(k, "x") for k in range(min(2, len(tr.groups)))]
+            src.gevents = [(k, kind, v) for k, (_, kind, v) in enumerate(src.gevents)]
         if rng.random() < 0.3:
             # a left-over section: star-power phrases and track events but not a single note (rate queries on it fail)
             free = [(i, d) for i in range(10) for d in range(4) if (i, d) not in {(t.inst, t.diff) for t in src.tracks}]
